@@ -1960,7 +1960,7 @@ Lemma spec_inodes_size ht0 files k :
   0 < bs -> Forall file_ok files ->
   i_size (spec_inodes hash compress HT ht_search ht_insert BW bw_write bs ht0 bw0 files k) = file_bytes files k.
 Proof.
-  intros Hbs Hf. unfold spec_inodes.
+  clear Hmb. intros Hbs Hf. unfold spec_inodes.
   destruct (fe_files_ok bs Hbs files fe_init 0 eq_refl eq_refl Hf) as (f' & evs & E1 & _).
   rewrite E1. unfold ino_canon. cbn [i_size]. unfold size_canon.
   rewrite (fe_files_sz bs k _ _ _ _ _ 0 E1), N.sub_0_r.
